@@ -17,6 +17,7 @@ CONSTANTS
  Vals = %s
  Dev = %s
  DoPrint = %s
+ T0 = %d
 INVARIANT NoErr
 INVARIANT Mono
 INVARIANT BatchStrict
@@ -27,12 +28,12 @@ CHECK_DEADLOCK FALSE
 """
 
 
-def run(name, kind, a, b, maxt=5, maxn=4, vals=(1, 2, 3), dev=(), emit=False, workers=4, timeout=1800, expect_violation=False):
+def run(name, kind, a, b, maxt=5, maxn=4, vals=(1, 2, 3), dev=(), emit=False, workers=4, timeout=1800, expect_violation=False, t0=0):
     """exhaustive TLC run of DenseOnMC for one operator; returns (tlc result, behaviours printed by Emit)"""
     wd = tlc.workdir(name)
     shutil.copy(os.path.join(tlc.SPEC, "DenseOnMC.tla"), wd)
     with open(os.path.join(wd, "DenseOnMC.cfg"), "w") as f:
-        f.write(CFG % (kind, a, b, maxt, maxn, tlc.tla(set(vals)), tlc.tla(set(dev)), "TRUE" if emit else "FALSE"))
+        f.write(CFG % (kind, a, b, maxt, maxn, tlc.tla(set(vals)), tlc.tla(set(dev)), "TRUE" if emit else "FALSE", t0))
     res = tlc.run(wd, "DenseOnMC", workers=workers, timeout=timeout, deadlock=True)
     tlc.ok_or_machinery(res, name)
     if expect_violation and not res["violated"]:
